@@ -58,6 +58,10 @@ def resist(A, rseed, cplx, ints, mag=1.0):
 
 class C18(Machine):
     pid = "C18"
+    shadow_generic = True
+
+    def lru_configs(self, tier):
+        return ["default", "shadow"]
     rule = ("run = connected graph recipe + resistances + 4..15 ops "
             "(update_resistances of three kinds interleaved with every "
             "resistive query and a circuit-law sweep). Non-trivial: at least "
